@@ -103,7 +103,7 @@ Theorem cstep_synapse c k s o :
   snd (fst (cstep NM c (k, s) o)) = match syn_op k o with Some so => syn_after c s so | None => s end /\
   fst (fst (cstep NM c (k, s) o)) = conn_after k o.
 Proof.
-  destruct o as [xsh xs inj| | | |d|]; cbn [cstep syn_op conn_after]; try (split; reflexivity).
+  destruct o as [xsh xs inj| | | |d| |]; cbn [cstep syn_op conn_after]; try (split; reflexivity).
   - destruct k as [kd|kd|kl|kv]; cbn [conn_forward].
     + pose proof (dense_forward_state kd c s xsh xs inj) as H. destruct (dense_forward NM kd c s xsh xs inj) as (s', r). cbn [fst snd] in *. split; [exact H|reflexivity].
     + pose proof (direct_forward_state kd c s xsh xs inj) as H. destruct (direct_forward NM kd c s xsh xs inj) as (s', r). cbn [fst snd] in *. split; [exact H|reflexivity].
